@@ -59,7 +59,8 @@ Init ==
 AddBlock(P, S) ==
     /\ Len(blocks) < MaxBlocks
     /\ Cardinality(P) <= MaxPay /\ Cardinality(S) <= 1
-    /\ P # {} \/ S = {}
+    \* (a block may spend without paying the wallet anything: the last unspent output can go away, so a resumed
+    \*  recovery may start with nothing unspent)
     /\ \A a \in P : a[3] <= hi[<<a[1], a[2]>>] + W          \* the look-ahead condition
     /\ S \subseteq unspent
     /\ blocks' = Append(blocks, [pays |-> P, spends |-> S])
